@@ -1,2 +1,63 @@
-(** C06 - theorems under construction. *)
-From Coq Require Import ZArith.
+(** C06 - arbitrarily long digit strings are still rounded correctly.
+    PROVED (closed by [exact]; proofs/ParseFacts.v): the first stage keeps exactly the first 19
+    significant digits w, reports truncation, and the exact value lies in [w, w+1) * 10^(X+k) with
+    the exponent the saturation of the mathematically exact one - for every valid input of any
+    length (< 2^31 - 2 digits) and both build modes.  The deeper truncation at MAX_DIGITS
+    (parse_mantissa) and the end-to-end consequence are covered by the correspondence/search
+    (exact ties with a digit at depth 20 .. 10^6, tails of 9s, trailing zeros). *)
+
+From Coq Require Import ZArith QArith List Bool.
+From ML Require Import base.RustSem model.Fmt model.Number model.Parse model.Top model.Vec model.Bigint spec.Decimal spec.Round spec.RneZ spec.RneBridge
+  gen.Consts gen.Tables gen.BTables gen.PowDump proofs.LimbVal proofs.ParseFacts proofs.Glue proofs.NoUB proofs.BigintFacts2.
+Import ListNotations.
+
+Open Scope Z_scope.
+
+Theorem C06_parse_number_spec :
+  forall (b : build) (i f : list Z) (e : Z),
+         valid_inputb i f e = true ->
+         exists n : number,
+           parse_number b i f e = Ok n /\
+           0 <= nmant n < 2 ^ 64 /\
+           i32_min <= nexp n <= i32_max /\
+           (let D := digits_to_Z (i ++ f) in
+            let X := e - zlen f in
+            let s := strip0 (i ++ f) in
+            many n = (19 <? zlen s) /\
+            nmant n = digits_to_Z (firstn 19 s) /\
+            nexp n = clamp_i32 (X + Z.max 0 (zlen s - 19)) /\
+            (many n = false ->
+             nmant n = D /\ D < 10 ^ 19 /\ nexp n = clamp_i32 X /\ clamp_i32 X = Z.max i32_min X) /\
+            (many n = true ->
+             10 ^ 18 <= nmant n < 10 ^ 19 /\
+             (exists k : Z,
+                k = zlen s - 19 /\
+                1 <= k <= zlen i + zlen f - 19 /\
+                nmant n * 10 ^ k <= D < (nmant n + 1) * 10 ^ k /\ nexp n = clamp_i32 (X + k))) /\
+            (D = 0 -> nmant n = 0 /\ many n = false) /\
+            (nmant n = 0 -> D = 0) /\ (zlen i + zlen f <= 19 -> many n = false)).
+Proof. exact parse_number_spec. Qed.
+
+Theorem C06_parse_number_value_bracket :
+  forall (b : build) (i f : list Z) (e : Z) (n : number),
+         valid_inputb i f e = true ->
+         parse_number b i f e = Ok n ->
+         let X := e - zlen f in
+         (many n = false -> dec_value i f e == inject_Z (nmant n) * pow10Q X /\ nexp n = clamp_i32 X) /\
+         (many n = true ->
+          exists k : Z,
+            1 <= k /\
+            k = zlen (strip0 (i ++ f)) - 19 /\
+            nexp n = clamp_i32 (X + k) /\
+            (inject_Z (nmant n) * pow10Q (X + k) <= dec_value i f e < inject_Z (nmant n + 1) * pow10Q (X + k))%Q).
+Proof. exact parse_number_value_bracket. Qed.
+
+Theorem C06_parse_number_exact :
+  forall (b : build) (i f : list Z) (e : Z),
+         valid_inputb i f e = true -> parse_number b i f e = Ok (parse_spec i f e).
+Proof. exact parse_number_exact. Qed.
+
+
+Print Assumptions C06_parse_number_spec.
+Print Assumptions C06_parse_number_value_bracket.
+Print Assumptions C06_parse_number_exact.
